@@ -283,6 +283,13 @@ class CallGraph:
                     if f not in out:
                         out.append(f)
             return out
+        if k == "ifexp":
+            out = []
+            for a in (fn[2], fn[3]):
+                for f in self.resolve_fn(a, func, _depth + 1):
+                    if f not in out:
+                        out.append(f)
+            return out
         if k == "global":
             q = fn[1]
             if q in self.repo.funcs:
